@@ -37,6 +37,10 @@ structure Policy where
   timersFirst : Bool := true    -- a timer due at the instant of a stimulus fires before it
   wedge : Bool := false         -- … and the goroutine it woke has not run yet when the stimulus lands
   exitFirst : Bool := false     -- a select with Done / ctx.Done ready next to work takes the exit
+  swapExits : Bool := false     -- a worker's select with both its context and the client's Done ready takes
+                                -- the other of the two (Done before the context, or the context before Done)
+  apiLast : Bool := false       -- an API goroutine woken by a reply runs only after the receive loop, the
+                                -- workers and the application code returning at this instant have run
   deriving Repr, Inhabited
 
 structure Cfg where
@@ -140,11 +144,38 @@ def allWorkersExited (s : S) : Bool :=
   (List.range s.i.n).all fun w => match (s.i.ws w).outer with | .exited _ => true | _ => false
 
 def workerEvs (cfg : Cfg) (s : S) : List I.Ev :=
-  I.Ev.queueSendDone :: (List.range s.i.n).flatMap fun w =>
+  (if cfg.policy.exitFirst then [I.Ev.queueSendAbandon, I.Ev.queueSendDone] else [I.Ev.queueSendDone, I.Ev.queueSendAbandon]) ++
+  (List.range s.i.n).flatMap fun w =>
     if cfg.policy.exitFirst then
-      [.innerExit w, .outerDone w, .outerCtx w, .innerTake w, .innerSendRetry w, .outerTake w, .outerAnswer w false]
+      (if cfg.policy.swapExits then [.innerExit w, .outerCtx w, .outerDone w] else [.innerExit w, .outerDone w, .outerCtx w]) ++
+      [.innerTake w, .innerSendRetry w, .outerTake w, .outerAnswer w false]
     else
-      [.innerTake w, .innerSendRetry w, .outerTake w, .outerCtx w, .outerDone w, .outerAnswer w false, .innerExit w]
+      [.innerTake w, .innerSendRetry w, .outerTake w] ++
+      (if cfg.policy.swapExits then [.outerDone w, .outerCtx w] else [.outerCtx w, .outerDone w]) ++
+      [.outerAnswer w false, .innerExit w]
+
+inductive Due where
+  | r (e : R.Ev)
+  | i (e : I.Ev)
+  | u (k : Nat) (e : UEv)      -- k-th scheduled application return
+  deriving Inhabited
+
+def fire (cfg : Cfg) (s : S) (d : Due) : S :=
+  match d with
+  | .r e => (rStep cfg s e).getD s
+  | .i e => (iStep cfg s e).getD s
+  | .u k e =>
+    let s := { s with timers := s.timers.eraseIdx k }
+    match e with
+    | .eventReturn => (rStep cfg s .eventReturn).getD s
+    | .progReturn g => (rStep cfg s (.progReturn g)).getD s
+    | .handlerReturn w r =>
+      let s := { s with waitCtx := s.waitCtx.filter (fun p => p.1 != w) }
+      (iStep cfg s (.handlerReturn w r false)).getD s
+
+/-- Application code (scripted) whose return is due now. -/
+def dueNow (s : S) : Option (Nat × UEv) :=
+  ((List.range s.timers.length).zip s.timers).findSome? fun (k, (t, e)) => if t ≤ s.r.now then some (k, e) else none
 
 /-- One internal step, if any is enabled. -/
 def internal (cfg : Cfg) (s : S) : Option S :=
@@ -167,6 +198,7 @@ def internal (cfg : Cfg) (s : S) : Option S :=
   | some s => some s
   | none =>
   if s.r.done && !s.i.clientDone then iStep cfg s .clientDone else
+  if s.r.recvDone && !s.i.recvDone then iStep cfg s .endRecv else
   -- a handler waiting for its context
   let wc : Option S := firstSome s.waitCtx fun (w, onCancel) =>
     let x := s.i.ws w
@@ -181,11 +213,21 @@ def internal (cfg : Cfg) (s : S) : Option S :=
   match wc with
   | some s => some s
   | none =>
-  let rEvs := if cfg.policy.runFirst then runEvs ++ waiterEvs cfg s else waiterEvs cfg s ++ runEvs
+  let rEvs := if cfg.policy.apiLast then runEvs
+    else if cfg.policy.runFirst then runEvs ++ waiterEvs cfg s else waiterEvs cfg s ++ runEvs
   match firstSome (rEvs ++ [.closeSeeDone]) (rStep cfg s) with
   | some s => some s
   | none =>
   match firstSome (workerEvs cfg s) (iStep cfg s) with
+  | some s => some s
+  | none =>
+  let late : Option S :=
+    if cfg.policy.apiLast then
+      match dueNow s with
+      | some (k, e) => some (fire cfg s (.u k e))
+      | none => firstSome (waiterEvs cfg s) (rStep cfg s)
+    else none
+  match late with
   | some s => some s
   | none =>
     match s.r.close with
@@ -195,12 +237,6 @@ def internal (cfg : Cfg) (s : S) : Option S :=
 def quiesce (cfg : Cfg) (s : S) : Nat → S
   | 0 => s
   | fuel + 1 => match internal cfg s with | some s' => quiesce cfg s' fuel | none => s
-
-inductive Due where
-  | r (e : R.Ev)
-  | i (e : I.Ev)
-  | u (k : Nat) (e : UEv)      -- k-th scheduled application return
-  deriving Inhabited
 
 /-- Everything with a deadline, as (time, event). -/
 def dues (s : S) : List (Nat × Due) :=
@@ -233,19 +269,6 @@ def tickTo (cfg : Cfg) (s : S) (t : Nat) : S :=
   let d := t - s.r.now
   let s := match R.step cfg.r s.r (.tick d) with | some r' => { s with r := r' } | none => s
   match I.step cfg.i s.i (.tick d) with | some i' => { s with i := i' } | none => s
-
-def fire (cfg : Cfg) (s : S) (d : Due) : S :=
-  match d with
-  | .r e => (rStep cfg s e).getD s
-  | .i e => (iStep cfg s e).getD s
-  | .u k e =>
-    let s := { s with timers := s.timers.eraseIdx k }
-    match e with
-    | .eventReturn => (rStep cfg s .eventReturn).getD s
-    | .progReturn g => (rStep cfg s (.progReturn g)).getD s
-    | .handlerReturn w r =>
-      let s := { s with waitCtx := s.waitCtx.filter (fun p => p.1 != w) }
-      (iStep cfg s (.handlerReturn w r false)).getD s
 
 def fuel : Nat := 20000
 
